@@ -35,8 +35,7 @@ Refused(c) == c >= limit
 \* <<disk-of-file', dirty-of-file', ok?>>
 FlushFile(f, dk, dc) ==
     LET bad == {c \in dc : Refused(c)}
-        upto == IF bad = {} THEN NChunks ELSE CHOOSE c \in bad : \A b \in bad : c <= b
-        wr == {c \in dc : c < upto}
+        wr == {c \in dc : \A b \in bad : c < b}       \* the dirty chunks in front of the first refused one
     IN <<[c \in Chunks |-> IF c \in wr THEN logical[f][c] ELSE dk[c]], dc \ wr, bad = {}>>
 
 \* access to chunk c of file f by an update: load it (evicting everything but chunk 0 when the
@@ -55,7 +54,9 @@ Update(cv, ck, ch) ==
            tk == Touch("key", ck, disk["key"], cached["key"], dirtyc["key"])
            th == Touch("htx", ch, disk["htx"], cached["htx"], dirtyc["htx"])
        IN IF tv.ok /\ tk.ok /\ th.ok
-          THEN /\ logical' = [logical EXCEPT !["val"][cv] = @ + 1, !["key"][ck] = @ + 1, !["htx"][ch] = @ + 1]
+          THEN /\ logical' = [f \in FileSet |-> [c \in Chunks |->
+                                IF (f = "val" /\ c = cv) \/ (f = "key" /\ c = ck) \/ (f = "htx" /\ c = ch)
+                                THEN logical[f][c] + 1 ELSE logical[f][c]]]
                /\ disk' = [f \in FileSet |-> CASE f = "val" -> tv.disk [] f = "key" -> tk.disk [] OTHER -> th.disk]
                /\ cached' = [f \in FileSet |-> CASE f = "val" -> tv.cached [] f = "key" -> tk.cached [] OTHER -> th.cached]
                /\ dirtyc' = [f \in FileSet |-> CASE f = "val" -> tv.dirty [] f = "key" -> tk.dirty [] OTHER -> th.dirty]
